@@ -37,6 +37,7 @@ type layout struct {
 	noLinks                                                                  bool   // build the root without any symbolic link
 	pristineOut, pristineIn                                                  map[string]string
 	builds                                                                   int
+	dirty                                                                    bool // the last run changed something (inside or outside the root)
 }
 
 // variant content ---------------------------------------------------------
@@ -303,17 +304,26 @@ func (l *layout) snapshot() (outside, inside map[string]string) {
 	return outside, inside
 }
 
-// ensure brings the instance back to its pristine state if the previous case changed anything.
+// ensure brings the instance back to its pristine state if the previous case changed anything
+// (observe() records that after every run, so no extra walk is needed here).
 func (l *layout) ensure() {
-	if l.pristineOut != nil {
-		o, i := l.snapshot()
-		if len(snapDiff(l.pristineOut, o)) == 0 && len(snapDiff(l.pristineIn, i)) == 0 {
-			return
-		}
+	if l.pristineOut != nil && !l.dirty {
+		return
 	}
 
 	l.build()
 	l.pristineOut, l.pristineIn = l.snapshot()
+	l.dirty = false
+}
+
+// observe takes the snapshot after a run, remembers whether anything (inside or outside the root)
+// changed, and returns the differences outside the root.
+func (l *layout) observe() []string {
+	o, i := l.snapshot()
+	d := snapDiff(l.pristineOut, o)
+	l.dirty = len(d) > 0 || len(snapDiff(l.pristineIn, i)) > 0
+
+	return d
 }
 
 func snapDiff(a, b map[string]string) []string {
